@@ -38,13 +38,18 @@ def gen_tree(r, depth, ctr, pfail=0.35):
     n = Node()
     ctr[0] += 1
     n.sid = ctr[0]
-    n.kind = 'leaf' if depth == 0 else r.choice(['leaf', 'nest', 'chain', 'alt', 'or', 'switch', 'chain', 'nest'])
+    n.kind = 'leaf' if depth == 0 else r.choice(['leaf', 'nest', 'chain', 'alt', 'or', 'switch', 'chain', 'nest', 'guard'])
     n.kids, n.vals, n.ok = [], [], True
     if n.kind == 'leaf':
         x = r.random()
         n.ok = x > pfail
         if x > 0.93:
             n.kind = 'skip'           # succeeds with the value every Coalesce skips
+        return n
+    if n.kind == 'guard':
+        # Check(sub-spec, ...): refuses by itself (after the sub-spec succeeded) with probability pfail
+        n.ok = r.random() > pfail
+        n.kids = [gen_tree(r, depth - 1, ctr, pfail * 0.5)]
         return n
     m = r.randint(1, 3)
     n.kids = [gen_tree(r, depth - 1, ctr, pfail) for _ in range(m)]
@@ -60,6 +65,8 @@ def to_ir(n):
         return ['skip', n.sid]
     if n.kind == 'switch':
         return ['switch', n.sid, [[to_ir(a), to_ir(b)] for a, b in zip(n.kids, n.vals)]]
+    if n.kind == 'guard':
+        return ['guard', n.sid, n.ok, to_ir(n.kids[0])]
     return [n.kind, n.sid, [to_ir(k) for k in n.kids]]
 
 
@@ -71,6 +78,8 @@ def ir_coq(ir):
         return '(SkipLeaf %s)' % cnat(ir[1])
     if k == 'switch':
         return '(Switch %s %s)' % (cnat(ir[1]), clist('(%s, %s)' % (ir_coq(a), ir_coq(b)) for a, b in ir[2]))
+    if k == 'guard':
+        return '(Guard %s %s %s)' % (cnat(ir[1]), cbool(ir[2]), ir_coq(ir[3]))
     name = {'nest': 'Nest', 'chain': 'Chain', 'alt': 'Alt', 'or': 'OrS'}[k]
     return '(%s %s %s)' % (name, cnat(ir[1]), clist(ir_coq(x) for x in ir[2]))
 
@@ -89,6 +98,8 @@ def realise(ir, reg):
             sp = glom.Val(ir[1]) if ir[2] else glom.T['FAIL_%d' % ir[1]]
     elif k == 'switch':
         sp = Switch([(realise(a, reg), realise(b, reg)) for a, b in ir[2]])
+    elif k == 'guard':
+        sp = glom.Check(realise(ir[3], reg), validate=(_accept if ir[2] else _refuse))
     else:
         subs = [realise(x, reg) for x in ir[2]]
         if k == 'nest':
@@ -103,6 +114,14 @@ def realise(ir, reg):
     reg['by_sid'][ir[1]] = sp
     reg['keep'].append(sp)
     return sp
+
+
+def _accept(x):
+    return True
+
+
+def _refuse(x):
+    return False
 
 
 def mk_copy(sid, reg):
@@ -120,6 +139,8 @@ def mk_copy(sid, reg):
 def depth_of(ir):
     if ir[0] in ('leaf', 'skip'):
         return 0
+    if ir[0] == 'guard':
+        return 1 + depth_of(ir[3])
     if ir[0] == 'switch':
         return 1 + max(max(depth_of(a), depth_of(b)) for a, b in ir[2])
     return 1 + max([depth_of(x) for x in ir[2]] or [0])
@@ -130,6 +151,8 @@ def has_branch(ir):
         return False
     if ir[0] in ('alt', 'or', 'switch'):
         return True
+    if ir[0] == 'guard':
+        return has_branch(ir[3])
     return any(has_branch(x) for x in ir[2])
 
 
@@ -238,6 +261,9 @@ def build_value(d):
 
 
 # every kind of original error: the message must render and end the text
+N_MESSAGE = 24 + 5 * 4 * 3 + 1
+
+
 def message_cases():
     import glom
     from glom import T, S, Coalesce, Check, Match, M, Switch, Fold, Assign, Delete, Path
@@ -277,7 +303,26 @@ def message_cases():
         # a callable that runs a nested glom, logs (stringifies) its error and lets it propagate
         ('nested-logged', {'a': {'x': {}}}, ('a', _logging_nested)),
         ('nested-plain', {'a': {'x': {}}}, ('a', _plain_nested)),
-    ]
+    ] + guard_cases()
+
+
+def guard_cases():
+    """a branch that fails BY ITSELF after its own sub-specs succeeded (Check / And / Match of a reached value), followed by a sibling
+    that has sub-specs too and does not fail, under a parent that then raises: exactly one recorded branch which is not the last
+    child (F28: comparing the two scopes with == recursed without end)"""
+    from glom import Coalesce, Check, Or, Not, And, Match, M, T
+    t = {'n': 1, 'l': {'m': None}, 'b': {'q': 1}, 'c': 1}
+    failing = [('check-path', Check('n', type=dict)), ('check-tuple', Check(('n',), type=dict)), ('and', And('n', M == 5)),
+               ('check-deep', Check(('b', 'q'), type=str)), ('tuple-check', ('n', Check(type=dict)))]
+    last = [('tuple', ('l', 'm')), ('tuple1', ('l',)), ('path', 'l.m'), ('check-pass', Check('l', type=dict))]
+    out = []
+    for fn, f in failing:
+        for ln, l in last:
+            out.append(('guard:coalesce-skip:%s:%s' % (fn, ln), t, Coalesce(f, (l, lambda x: None), skip=None)))
+            out.append(('guard:not-or:%s:%s' % (fn, ln), t, Not(Or(f, l, default=1))))
+            out.append(('guard:chain-not-or:%s:%s' % (fn, ln), t, (T, Not(Or(f, l)))))
+    out.append(('guard:check-or-coalesce', {'b': {'q': 1}, 'c': 1, 'l': [1]}, Check(Or(('b', 'x'), Coalesce('c', 'l', len)), type=dict)))
+    return out
 
 
 def _logging_nested(t):
@@ -350,8 +395,12 @@ def corpus():
         # one failed alternative followed by one whose value is skipped: the failed one is still a branch of the trace
         {'kind': 'trace', 'tree': ['alt', 1, [['leaf', 2, False], ['skip', 3]]]},
         {'kind': 'trace', 'tree': ['chain', 1, [['leaf', 2, True], ['alt', 3, [['skip', 4], ['leaf', 5, False], ['skip', 6]]]]]},
+        # F28: one recorded branch (a guard refusing after its sub-spec succeeded) that is not the last child, both with children
+        {'kind': 'trace', 'tree': ['alt', 1, [['guard', 2, False, ['leaf', 3, True]], ['chain', 4, [['skip', 5]]]]]},
+        {'kind': 'trace', 'tree': ['chain', 1, [['leaf', 2, True], ['alt', 3, [['guard', 4, False, ['nest', 5, [['leaf', 6, True]]]], ['nest', 7, [['leaf', 8, True]]], ['skip', 9]]]]]},
+        {'kind': 'trace', 'tree': ['guard', 1, True, ['or', 2, [['guard', 3, False, ['leaf', 4, True]], ['chain', 5, [['leaf', 6, True], ['leaf', 7, False]]]]]]},
     ]
-    out += [{'kind': 'message', 'i': i} for i in range(24)]
+    out += [{'kind': 'message', 'i': i} for i in range(N_MESSAGE)]
     return out
 
 
